@@ -199,7 +199,10 @@ Definition ststep (h : sth) (o : stop) : sth + list Z :=
   | SObserve segs nmem =>
       let ms := map (fun g => (sg_id g, if sg_cached g then 1 else 0)) (s_segs s) in
       if plist_eqb ms segs && (nmem =? Z.of_nat (length (s_queue s))) then inl (upd_model h s)
-      else inr (verdict false true (sh_i h :: -10 :: flatten_pairs ms))
+      else
+        (* the property's own demand on the segment list: no identifier is carried by two live
+           segments (an identifier seen on disk, even of a partial segment, is never handed out again) *)
+        inr (verdict false (nodupz (map fst segs)) (sh_i h :: -10 :: flatten_pairs ms))
   | SSearch rq err out =>
       let out := canon64_pairs out in
       match st_search s rq with
